@@ -152,7 +152,7 @@ func checkMethod(t *testing.T, b *rt.Built, s *m.Service, meth *m.Method) bool {
 		rapid.Check(t, func(rt_ *rapid.T) {
 			c := &caseRec{Service: s.Name, Method: meth.Name}
 			c.Payload = gen.PayloadGen(d, meth).Draw(rt_, "payload")
-			classes := []string{"plain", "wrapped-plain", "undeclared-service", "undeclared-service"}
+			classes := []string{"plain", "wrapped-plain", "undeclared-service", "undeclared-service", "undeclared-service-wrapped"}
 			if len(decl) > 0 {
 				classes = append(classes, "declared", "declared", "declared", "declared", "declared-wrapped")
 			}
@@ -163,10 +163,16 @@ func checkMethod(t *testing.T, b *rt.Built, s *m.Service, meth *m.Method) bool {
 				c.Err = harness.ErrorSpec{Kind: "plain", Message: msg}
 			case "wrapped-plain":
 				c.Err = harness.ErrorSpec{Kind: "wrapped-plain", Message: msg}
-			case "undeclared-service":
+			case "undeclared-service", "undeclared-service-wrapped":
 				name := rapid.SampledFrom([]string{"undeclared", "error", "fault", "unsupported_media_type", "missing_field", "custom_undeclared"}).Draw(rt_, "uname")
 				c.Err = harness.ErrorSpec{Kind: "service", Name: name, ID: idGen.Draw(rt_, "id"), Message: msg,
 					Timeout: rapid.Bool().Draw(rt_, "to"), Temporary: rapid.Bool().Draw(rt_, "tmp"), Fault: rapid.Bool().Draw(rt_, "fault")}
+				if c.Class == "undeclared-service-wrapped" {
+					// fmt.Errorf("wrapped: %w", serviceError): still a goa service
+					// error for errors.As, which is how the generated encoder and
+					// the default formatter are documented to recognise it
+					c.Err.Kind = "wrapped-service"
+				}
 			default:
 				de := decl[rapid.IntRange(0, len(decl)-1).Draw(rt_, "which")]
 				c.Err = errorFor(rt_, d, de, msg)
@@ -237,7 +243,7 @@ func goName(s string) string {
 }
 
 func record(c *caseRec, decl []declaredError) {
-	nt := c.Class == "declared-wrapped" || c.Class == "wrapped-plain"
+	nt := c.Class == "declared-wrapped" || c.Class == "wrapped-plain" || c.Class == "undeclared-service-wrapped"
 	for _, de := range decl {
 		if de.Def.Name == c.Err.Name && strings.HasPrefix(c.Class, "declared") {
 			if de.Shared || de.Level != "method" {
